@@ -360,11 +360,19 @@ def run(ctx):
             "level2_prefixes": "every distinct state reached at level 1 by documents of length <= %d" % prefix_len,
             "history_depth": 2,
         }
+        # forked workers: keep the collector from touching (and thereby copying) the parent's heap - page faults
+        # are very expensive on this kind of VM; the quick tier is ~50 s of CPU, a medium pool suffices
+        import gc
+
+        gc.collect()
+        gc.freeze()
+        nproc = par.NPROC if thorough else min(par.NPROC, 8)
         # level 1
-        cases1 = [{"flow": k, "puts": [d]} for k in FLOW_KINDS for d in docs1]
+        # quick tier: a TCP flow has neither request nor response, so all those fields fall in one class: length <= 2 suffices there
+        cases1 = [{"flow": k, "puts": [d]} for k in FLOW_KINDS for d in docs1 if thorough or k != "tcp" or len(d.get("fields", [])) <= 2]
         ctx.log("level 1: %d histories" % len(cases1))
         seen = {}
-        for t, fps in par.pmap(level_chunk, list(enumerate(cases1)), nchunks=par.NPROC * 2):
+        for t, fps in par.pmap(level_chunk, list(enumerate(cases1)), nchunks=nproc, nproc=nproc):
             ctx.tally.merge(t)
             for idx, fp in fps:
                 case = cases1[idx]
@@ -379,7 +387,7 @@ def run(ctx):
         # level 2
         cases2 = [{"flow": p["flow"], "puts": [p["puts"][0], d]} for p in prefixes for d in docs2]
         ctx.log("level 2: %d histories" % len(cases2))
-        for t, fps in par.pmap(level_chunk, list(enumerate(cases2)), nchunks=par.NPROC * 2):
+        for t, fps in par.pmap(level_chunk, list(enumerate(cases2)), nchunks=nproc, nproc=nproc):
             ctx.tally.merge(t)
         ctx.bounds["level1_histories"] = len(cases1)
         ctx.bounds["level2_histories"] = len(cases2)
